@@ -106,7 +106,17 @@ func (server *SugarDB) getHandlerFuncParams(ctx context.Context, cmd []string, c
 func (server *SugarDB) handleCommand(ctx context.Context, message []byte, conn *net.Conn, replay bool, embedded bool) ([]byte, error) {
 	// Prepare context before processing the command.
 	server.connInfo.mut.RLock()
-	if embedded && !replay {
+	if replay {
+		// The command is being replayed from the append-only log: the caller has already put the
+		// database (and protocol) recorded in the log into the context.
+		if ctx.Value("Database") == nil {
+			ctx = context.WithValue(ctx, "Database", 0)
+		}
+		if ctx.Value("Protocol") == nil {
+			ctx = context.WithValue(ctx, "Protocol", 2)
+		}
+		ctx = context.WithValue(ctx, "ConnectionName", "")
+	} else if embedded {
 		// The call is triggered via the embedded API.
 		// Add embedded connection info to the context of the request.
 		ctx = context.WithValue(ctx, "ConnectionName", server.connInfo.embedded.Name)
